@@ -12,6 +12,7 @@
    Scope: one HTLC; on-chain claiming itself is C07; trampoline and blinded forwards are not modelled. -/
 import LdkModel.Proofs.Forward
 import LdkModel.Proofs.ForwardHop
+import LdkModel.Proofs.ForwardClose
 namespace Ldk.C02
 open Ldk Ldk.Forward Ldk.FwdGen
 
@@ -639,5 +640,128 @@ theorem hop_forward_no_loss (n : NodeCfg) (best : Nat) (hop : NextHop) (h : Htlc
     refine ⟨?_, ?_⟩
     · cases hc : downClaimable s <;> simp [deltaWorst, hu, hc] <;> omega
     · intro _ hc; simp [deltaWorst, hu, hc]
+
+/-! ## force-closing the outbound channel: which forwarded HTLCs may be failed backwards at once
+
+`FwdClose.step` follows ONE outbound HTLC of the forwarding node through the commitment dance of the outbound channel
+(state rewrites from the generated tables of Generated/HtlcTables.lean) and records which commitment transactions list it.
+`forceClose` applies the selection of `ChannelContext::force_shutdown` as TRANSLATED from the source
+(Generated/ForceClose.lean: `forceShutdownConsiders` is the head condition of its `'htlc_iter` loop). -/
+
+/-- **forceclose_selection_is_never_sent.** For EVERY `OutboundHTLCState` and every content of `blocked_monitor_updates`,
+    `force_shutdown` hands an HTLC back for immediate backwards failure exactly when it never left the node: it sits in the
+    holding cell, or it is `LocalAnnounced` and the one commitment that lists it is still held. -/
+theorem forceclose_selection_is_never_sent (s : FwdClose.St) : FwdClose.dropDecision s = FwdClose.neverSent s :=
+  FwdClose.dropDecision_eq_neverSent s
+
+/-- **forceclose_considers_no_signed_view.** Both commitment views, all states: a state `force_shutdown` considers for
+    immediate fail-back is in no commitment the counterparty has signed for us (`included_in_commitment(false)`, our holder
+    transaction), carries no preimage, and is rewritten by the counterparty's next `revoke_and_ack` — i.e. it is the state of
+    an HTLC the counterparty has not yet irrevocably committed to. -/
+theorem forceclose_considers_no_signed_view (st : Chan.OutState) (h : FcGen.forceShutdownConsiders st = true) :
+    st.included false = false ∧ st.hasPreimage = false ∧ st.included true = true ∧
+    FwdClose.raaRewrite (.pending st) = .pending .committed := by
+  cases st <;> simp [FcGen.forceShutdownConsiders] at h <;>
+    simp [Chan.OutState.included, Chan.OutState.hasPreimage, FwdClose.raaRewrite]
+
+/-- **forceclose_failback_only_never_signed.** On every run of the commitment dance — any interleaving of B's commitments
+    (released or held behind an RAA blocker), C's `revoke_and_ack`s, removals and `commitment_signed`s — an HTLC that
+    `force_shutdown` fails backwards at once is in NO commitment transaction the next hop can get confirmed: neither its
+    latest nor its previous unrevoked commitment (a held commitment was never signed over to it), nor the commitment B
+    itself broadcasts.  So the upstream fail-back never precedes the point where the next hop can no longer claim. -/
+theorem forceclose_failback_only_never_signed (ops : List FwdClose.Op) :
+    let s := FwdClose.run FwdClose.init ops
+    s.dropped = true → FwdClose.downstreamCanClaim s = false ∧ s.cpLatest = false ∧ s.cpPrev ≠ some true ∧ s.holder = false := by
+  intro s h
+  have k := (FwdClose.inv_reachable ops).key h
+  refine ⟨k, ?_⟩
+  simp only [FwdClose.downstreamCanClaim, Bool.or_eq_false_iff, beq_eq_false_iff_ne, ne_eq] at k
+  exact ⟨k.1.1, k.1.2, k.2⟩
+
+/-- **forceclose_keeps_committed.** The contrapositive, as the property reads: whenever the next hop can still claim the HTLC
+    from a commitment it holds (or from the one B broadcasts), force-closing does not fail it backwards; it is left to the
+    `ChannelMonitor` (on-chain preimage / timeout, `fail_only_after_irrevocable`). -/
+theorem forceclose_keeps_committed (ops : List FwdClose.Op) :
+    let s := FwdClose.run FwdClose.init ops
+    s.closed = false → FwdClose.downstreamCanClaim s = true → (FwdClose.step s .forceClose).dropped = false := by
+  intro s hc hd
+  have I := FwdClose.inv_reachable ops
+  have e : (FwdClose.step s .forceClose).dropped = FwdClose.dropDecision s := by simp [FwdClose.step, hc]
+  rw [e, FwdClose.dropDecision_eq_neverSent]
+  cases hn : FwdClose.neverSent s
+  · rfl
+  · have := FwdClose.neverSent_cannot_claim I hn
+    simp [hd] at this
+
+/-- **forceclose_fails_back_what_never_left.** Conversely an HTLC that never left the node IS failed backwards by the
+    force-close (the `ChannelMonitor` does not know it, nobody else would ever resolve it). -/
+theorem forceclose_fails_back_what_never_left (s : FwdClose.St) (hc : s.closed = false) (hn : FwdClose.neverSent s = true) :
+    (FwdClose.step s .forceClose).dropped = true := by
+  have e : (FwdClose.step s .forceClose).dropped = FwdClose.dropDecision s := by simp [FwdClose.step, hc]
+  rw [e, FwdClose.dropDecision_eq_neverSent, hn]
+
+/-- **forceclose_observation_consistent.** What the harness reads off the real nodes at the instant of the close (the
+    reported HTLC state, whether its `update_add_htlc` was ever released, whether C's latest commitment / B's broadcast
+    commitment contains it) is constrained by the model: `Seen.consistent` holds in every reachable state. -/
+theorem forceclose_observation_consistent (ops : List FwdClose.Op) (cHas bHas : Bool) :
+    let s := FwdClose.run FwdClose.init ops
+    (cHas = true → s.cpLatest = true ∨ s.cpPrev = some true) → (bHas = true → s.holder = true) →
+    (s.phase = .holdingCell → FwdClose.Seen.consistent .holdingCell (!FwdClose.neverSent s) cHas bHas = true) ∧
+    (s.phase = .pending .localAnnounced → FwdClose.Seen.consistent .awaitingRemoteRevokeToAdd (!FwdClose.neverSent s) cHas bHas = true) := by
+  intro s hcH hbH
+  have I := FwdClose.inv_reachable ops
+  constructor
+  · intro hp
+    obtain ⟨u1, u2, u3, -⟩ := I.unsent (Or.inr hp)
+    have c0 : cHas = false := by
+      cases cHas
+      · rfl
+      · rcases hcH rfl with h | h
+        · simp [u1] at h
+        · exact absurd h u2
+    have b0 : bHas = false := by
+      cases bHas
+      · rfl
+      · have := hbH rfl; simp [u3] at this
+    simp [FwdClose.Seen.consistent, FwdClose.neverSent, hp, c0, b0]
+  · intro hp
+    obtain ⟨l1, l2, -, l4, -⟩ := I.la hp
+    have b0 : bHas = false := by
+      cases bHas
+      · rfl
+      · have := hbH rfl; simp [l1] at this
+    simp only [FwdClose.Seen.consistent, FwdClose.neverSent, hp, b0]
+    cases hh : (s.held == some true)
+    · simp
+    · have hh' : s.held = some true := by simpa using hh
+      have c0 : cHas = false := by
+        cases cHas
+        · rfl
+        · rcases hcH rfl with h | h
+          · simp [l4 hh'] at h
+          · exact absurd h l2
+      simp [c0]
+
+/-- non-vacuity: the scenario of the property — HTLC 0 is `Committed` (C holds it in signed commitments, it is in B's own
+    commitment), a later commitment that lists it is held behind an RAA blocker, B force-closes: it is NOT failed back; an
+    HTLC freed from the holding cell into that held commitment IS; so is one still in the holding cell; one whose
+    `commitment_signed` went out is not -/
+example :
+    let s := FwdClose.run FwdClose.init [.announce false, .recvRaa, .recvCs, .commit true, .forceClose]
+    s.dropped = false ∧ FwdClose.downstreamCanClaim s = true ∧ s.held = some true ∧ s.phase = .pending .committed := by decide
+example :
+    let s := FwdClose.run FwdClose.init [.queueAdd, .announce true, .forceClose]
+    s.dropped = true ∧ FwdClose.downstreamCanClaim s = false := by decide
+example : (FwdClose.run FwdClose.init [.queueAdd, .forceClose]).dropped = true := by decide
+example :
+    let s := FwdClose.run FwdClose.init [.announce false, .forceClose]
+    s.dropped = false ∧ FwdClose.downstreamCanClaim s = true := by decide
+example :
+    let s := FwdClose.run FwdClose.init [.announce true, .release, .forceClose]
+    s.dropped = false ∧ FwdClose.downstreamCanClaim s = true := by decide
+/-- a fulfilled HTLC whose removal C has not yet revoked stays with the monitor as well -/
+example :
+    let s := FwdClose.run FwdClose.init [.announce false, .recvRaa, .recvCs, .recvRemove true, .recvCs, .commit true, .forceClose]
+    s.dropped = false ∧ s.phase = .pending (.awaitingRemovedRemoteRevoke true) ∧ s.held = some true := by decide
 
 end Ldk.C02
